@@ -666,6 +666,11 @@ func assignsObj(info *types.Info, n ast.Node, obj types.Object) bool {
 // nil-ness (wantNil). While the value is fresh (not reassigned), branch edges contradicting it are pruned.
 // boolObj mode: if isBool, obj is a bool variable and wantNil means "false".
 func (f *Flow) ReachRefined(from Pt, obj types.Object, wantNil bool, isBool bool, target, avoid func(Pt) bool) ([]Pt, bool) {
+	return f.ReachRefined2(from, obj, wantNil, isBool, target, avoid, nil)
+}
+
+// ReachRefined2 is ReachRefined with additional edges to avoid.
+func (f *Flow) ReachRefined2(from Pt, obj types.Object, wantNil bool, isBool bool, target, avoid func(Pt) bool, avoidEdge func(b *cfgBlock, i int) bool) ([]Pt, bool) {
 	f.P.countPaths()
 	type key struct {
 		b     *cfg.Block
@@ -718,7 +723,7 @@ func (f *Flow) ReachRefined(from Pt, obj types.Object, wantNil bool, isBool bool
 			}
 		}
 		for i, s := range pt.B.Succs {
-			if skip[i] {
+			if skip[i] || (avoidEdge != nil && avoidEdge(pt.B, i)) {
 				continue
 			}
 			push(self, has, Pt{s, 0}, it.fresh)
@@ -965,3 +970,11 @@ func (f *Flow) AvoidImplying(pred func(atom ast.Expr) (want bool, match bool)) f
 		return edgeImplies(cond, i, pred)
 	}
 }
+
+const (
+	kindRangeLoop = cfg.KindRangeLoop
+	kindIfThen    = cfg.KindIfThen
+	kindIfElse    = cfg.KindIfElse
+	kindForLoop   = cfg.KindForLoop
+	kindForBody   = cfg.KindForBody
+)
